@@ -98,8 +98,8 @@ def signatures(hist, divs, api):
     indexed = {"id": tv != "plain", "a": tv in ("uniq", "all"), "b": tv in ("idx", "all")}
     bulk = op["k"] in ("bulk", "bulk_ai")
     what = api if bulk else op["k"]
-    used = sorted({p["op"].get("api") for p in hist[:-1] if p["op"]["k"] in ("bulk", "bulk_ai")})
-    ctx = "" if bulk else ":after:" + ("+".join(used) if used else "-")
+    used = [p["op"].get("api") for p in hist[:-1] if p["op"]["k"] in ("bulk", "bulk_ai")]
+    ctx = "" if bulk else ":after:" + (used[-1] if used else "-")          # the bulk call made last before this statement
     out = []
     for d in divs:
         k = d["kind"]
@@ -115,11 +115,13 @@ def signatures(hist, divs, api):
             for c in d["refused"]:
                 out.append("stores_refused_row:%s:%s%s" % (what, c, ctx))
             rest_unexpected = d["n_unexpected"] > len(d["refused"])
+            missing = d["n_missing"]
             if d.get("null_id") and tv == "ai":
                 out.append("stores_null_id_instead_of_generating:%s%s" % (what, ctx))
-                rest_unexpected = False
-            if d["n_missing"] or rest_unexpected or (d["duplicates_of_same_row"] and not d["refused"]):
-                out.append("scan:%s:%s%s%s" % (what, "rows_missing" if d["n_missing"] else "", "+rows_unexpected" if rest_unexpected or d["duplicates_of_same_row"] else "", ctx))
+                if d.get("same_but_for_null_ids"):
+                    rest_unexpected, missing = False, 0
+            if missing or rest_unexpected or (d["duplicates_of_same_row"] and not d["refused"] and not d.get("same_but_for_null_ids")):
+                out.append("scan:%s:%s%s%s" % (what, "rows_missing" if missing else "", "+rows_unexpected" if rest_unexpected or d["duplicates_of_same_row"] else "", ctx))
         elif k == "scan_error":
             out.append("scan_error:%s%s" % (what, ctx))
         elif k == "count":
@@ -131,8 +133,10 @@ def signatures(hist, divs, api):
         elif k == "probe":
             if d["name"] == "next_ai":
                 out.append("next_auto_increment_value:%s%s" % (what, ctx))
+            elif d.get("expected_ok") is False:
+                out.append("constraint_not_enforced_after:%s:%s%s" % (what, d["name"], ctx))
             else:
-                out.append("probe:%s:%s:%s%s" % (what, d["name"], "accepted" if d.get("expected_ok") is False else "rejected", ctx))
+                out.append("later_insert_rejected_after:%s%s" % (what, ctx))
         else:
             out.append("%s:%s%s" % (k, what, ctx))
     seen, res = set(), []
@@ -145,6 +149,22 @@ def signatures(hist, divs, api):
 
 def hkey(h):
     return json.dumps([h[0]["tv"]] + [s["op"] for s in h], sort_keys=True)
+
+
+def selftest(meta):
+    """binding test (VERIF_SELFTEST=1): ONE expectation is falsified - every admissible outcome of the first plain 3-row
+    insert_cached batch claims one row more than TLC said - and the comparison must report result:insert_cached:wrong_count."""
+    import copy
+    for cid, (h, lay, api, is_ref) in meta.items():
+        op = h[-1]["op"]
+        if not is_ref and len(h) == 1 and op["k"] == "bulk" and api == "insert_cached" and op["d"]["n"] == 3 and not op["d"]["dupAt"] and not op["d"]["nullAt"] and op["d"]["ord"] == "asc" and h[0]["tv"] == "plain":
+            h2 = copy.deepcopy(h)
+            for o in h2[-1]["outs"]:
+                o["n"] += 1
+            meta[cid] = (h2, lay, api, is_ref)
+            print("SELFTEST: expecting n+1 rows reported for: %s" % relbulk.describe(h))
+            return
+    raise vlib.ToolError("selftest: no suitable behaviour")
 
 
 def evaluate(chk, hists, caps, with_reference=True):
@@ -170,6 +190,8 @@ def evaluate(chk, hists, caps, with_reference=True):
             cases.append(c)
     res = reldl.run_cases(cases, watchdog=300)
     chk.mark("replay")
+    if os.environ.get("VERIF_SELFTEST") == "1":
+        selftest(meta)
     st = {"behaviours": 0, "judged": 0, "conforming": 0, "abandoned_prefix_diverged": 0, "reference_runs": 0, "reference_conforming": 0,
           "reference_prefix_diverged": 0, "divergences": {}, "reference_divergences": {}, "classes": {}, "fatal": 0, "prefix_not_judged_separately": 0}
     # pass 1: which behaviours conform completely (result, rows, every lookup, probes)? A behaviour is only judged when
@@ -280,7 +302,15 @@ def run(chk):
     def cls(e):
         h = e["hist"]
         return tuple((s["op"]["k"], s["op"].get("api"), json.dumps(s["op"].get("d", {}), sort_keys=True), s["tv"]) for s in h)
-    g2 = vlib.stratified_sample(g2, cls, 6000 if thorough else 1000, rng)
+    # always there: duplicates of STORED rows (need a first INSERT) and every DML statement right after a plain batch
+    def must(e):
+        a, b = e["hist"][0]["op"], e["hist"][1]["op"]
+        if a["k"] == "ins1" and b["k"] == "bulk" and b["d"]["dupKind"] in ("pk_exist", "uq_exist") and b["d"]["n"] == 3:
+            return True
+        return a["k"] in ("bulk", "bulk_ai") and a.get("d", {}).get("n", a.get("n")) == 3 and (a["k"] == "bulk_ai" and a["far"] == 0 or a["k"] == "bulk" and a["d"]["dupAt"] == 0 and a["d"]["nullAt"] == 0 and a["d"]["ord"] == "asc") \
+            and b["k"] in ("ins1", "insdup", "del1", "deltail", "upd1", "reopen")
+    g2m = [e for e in g2 if must(e)]
+    g2 = g2m + vlib.stratified_sample([e for e in g2 if not must(e)], cls, 6000 if thorough else 700, rng)
     # G3: random walks with transactions, reopen and DML; every prefix of a walk is a behaviour
     wn, wd = (300, 7) if thorough else (40, 5)
     ws = reldl.walks("MC_RelBulk.tla", "Gen_RelBulk.cfg", {"MaxOps": wd, "SizesFirst": "{0,2,3}", "SizesLater": tset([0, 2, 3] + ([caps["insert_each"] + 1] if thorough else []))}, wn, wd, chk.seed)
